@@ -236,6 +236,7 @@ class World:
         self.last_inplace = None
         self.last_conv = None
         self.alias_of = {}
+        self.a_used = set()  # caller arrays handed directly to a tracked op
         self.alias_of_all = {}
         self.last_load = None
         self.checkpoints = []
@@ -716,6 +717,10 @@ class World:
             if forced is False and not is_float(sout.dtype) and self.tracking:
                 expect_fail = True
         rargs = [self.real(r) for r in refs]
+        if self.tracking:
+            for r in refs:
+                if "a" in r:
+                    self.a_used.add(r["a"])
         spell = ev.get("spell", "f")
         if spell not in od.spellings:
             spell = "f" if "f" in od.spellings else od.spellings[0]
@@ -1615,6 +1620,10 @@ class World:
                 if t.creator is not None or len(getattr(t, "_ops", ())) > 0:
                     # only possible with the guard off: the caller corrupted a live graph
                     self.grad_poisoned = True
+        for hb in self.a_used:
+            b = self.A.get(hb)
+            if b is not None and b.size and np.shares_memory(b, a):
+                self.grad_poisoned = True  # (guard off) an operand of a recorded op was overwritten
         return Outcome("ok")
 
     # ------------------------------------------------------------------ save / load (S6)
